@@ -53,8 +53,13 @@ CALLS = [
     ('model-parse', 'G1', 'a b', ()),      # on one persistent model object per history
     ('model-parse', 'G1', 'x', ()),
     ('model-parse', 'G1', 'c', (('start', 'start'),)),
+    # a second persistent model: semantics attached to it (m.semantics = S) and parsed; whatever was done to
+    # that object before, the result must be that of compile(G1, semantics=S).parse(t) — call 2
+    ('model2-parse', 'G1', 'a b', ()),
+    ('model2-attach-parse-detach', 'G1', 'a b', ()),
 ]
-REDUCED = [0, 1, 2, 5, 7, 12, 13, 16, 17]
+SAME_AS = {20: 2}   # call index -> call index whose first observation it must equal
+REDUCED = [0, 1, 2, 5, 7, 12, 13, 16, 17, 19, 20]
 GRAMMARS = {'G1': G1, 'G2': G2, 'G3': G3}
 
 
@@ -132,6 +137,19 @@ def run_history(hist):
                         obs = ('raised', type(e).__name__)
                     after = snapshot(m)
                     obs = (obs, 'model-unchanged' if before == after else 'MODEL-CHANGED')
+                elif kind in ('model2-parse', 'model2-attach-parse-detach'):
+                    _k, g, text, po = call
+                    if ('model2', g) not in store:
+                        store[('model2', g)] = tatsu.compile(GRAMMARS[g] + '\n# persistent 2\n')
+                    m = store[('model2', g)]
+                    if kind == 'model2-parse':
+                        obs = observe_value(m.parse(text))
+                    else:
+                        m.semantics = Tag()
+                        try:
+                            obs = observe_value(m.parse(text))
+                        finally:
+                            m.semantics = None
                 else:
                     raise AssertionError(kind)
         except ParseException as e:
@@ -160,6 +178,11 @@ def history_shard(m, items):
         if len(hist) > 1:
             m.add('nontrivial')
         for pos, (i, got) in enumerate(zip(hist, r[1])):
+            if i in SAME_AS and got != first[SAME_AS[i]]:
+                m.violation('history/attached-semantics-not-used', history=[str(CALLS[j]) for j in hist], position=pos,
+                            got=str(got)[:300], want=str(first[SAME_AS[i]])[:300])
+            elif i in SAME_AS:
+                continue
             if got != first[i]:
                 sig = classify_history(hist, pos, got, first[i])
                 m.violation(sig, history=[str(CALLS[j]) for j in hist], position=pos, got=str(got)[:300], when_run_first=str(first[i])[:300])
